@@ -121,8 +121,8 @@ func symRefPos() *refPos {
 	r.pc[Black][Rook] = nondetU64("bR")
 	r.pc[Black][Queen] = nondetU64("bQ")
 	r.pc[Black][King] = nondetU64("bK")
-	r.castling = nondetU8("castling")
-	r.ep = int(nondetU8("ep"))
+	r.castling = nondetU8("castling") & 15 // four rights
+	r.ep = int(nondetU8("ep") & 63)
 	return r
 }
 
@@ -241,6 +241,9 @@ func specAttackboard(bb RotatedBitboard, sq Square, piece Piece) Bitboard {
 	if piece == Pawn || piece == NoPiece || piece > King {
 		panic("invalid piece or Pawn")
 	}
+	if !verifIsSymbolic(uint64(sq)) {
+		return Bitboard(refAttacks(piece, int(sq), uint64(bb.rot)))
+	}
 	return Bitboard(refOfficerFrom(piece, int(sq), uint64(bb.rot)))
 }
 
@@ -301,21 +304,52 @@ func refLegalPos(r *refPos, turn Color) bool {
 func symMove() Move {
 	return Move{
 		Type:      MoveType(nondetU8("m.type")),
-		From:      Square(nondetU8("m.from")),
-		To:        Square(nondetU8("m.to")),
+		From:      Square(nondetU8("m.from") & 63), // squares are 6-bit by construction
+		To:        Square(nondetU8("m.to") & 63),
 		Piece:     Piece(nondetU8("m.piece")),
 		Promotion: Piece(nondetU8("m.promo")),
 		Capture:   Piece(nondetU8("m.capture")),
 	}
 }
 
-// refSlideFrom / refJumpFrom: attack set of a piece on a (possibly symbolic) square,
-// as a selection among the 64 concrete origins.
-func refOfficerFrom(kind Piece, from int, occ uint64) uint64 {
+// refSlideSym / refJumpSym: attack sets from a possibly symbolic origin (f0, r0), by walking
+// the rays with symbolic coordinates (refBitAt yields 0 off the board).
+func refSlideSym(f0, r0 int, occ uint64, dirs [4][2]int) uint64 {
 	var out uint64
-	for a := 0; a < 64; a++ {
-		out |= verifIte(from == a, refAttacks(kind, a, occ), 0)
+	for _, d := range dirs {
+		f, r := f0, r0
+		open := true
+		for i := 0; i < 7; i++ {
+			f += d[0]
+			r += d[1]
+			b := refBitAt(f, r)
+			out |= verifIte(open, b, 0)
+			open = verifAnd(open, verifAnd(b != 0, occ&b == 0))
+		}
 	}
+	return out
+}
+
+func refJumpSym(f0, r0 int, offs [8][2]int) uint64 {
+	var out uint64
+	for _, d := range offs {
+		out |= refBitAt(f0+d[0], r0+d[1])
+	}
+	return out
+}
+
+// refOfficerFrom: attack set of an officer of (possibly symbolic) kind on a (possibly symbolic) square.
+func refOfficerFrom(kind Piece, from int, occ uint64) uint64 {
+	f0, r0 := from&7, from>>3
+	rook := refSlideSym(f0, r0, occ, refRookDirs)
+	bishop := refSlideSym(f0, r0, occ, refBishopDirs)
+	knight := refJumpSym(f0, r0, refKnightOffs)
+	king := refJumpSym(f0, r0, refKingOffs)
+	out := verifIte(kind == Rook, rook, 0)
+	out |= verifIte(kind == Bishop, bishop, 0)
+	out |= verifIte(kind == Queen, rook|bishop, 0)
+	out |= verifIte(kind == Knight, knight, 0)
+	out |= verifIte(kind == King, king, 0)
 	return out
 }
 
